@@ -6,11 +6,13 @@
 //!   axsim exec-one <PROP> [verbose]       (internal) run one scenario read from stdin
 //!   axsim gen <PROP> <tier> <idx>         print the scenario of one run (debugging)
 
+mod combo;
 mod common;
 mod e1;
 mod e2;
 mod e3;
 mod e4;
+mod e5;
 mod engine;
 mod hooks;
 mod regs;
